@@ -69,6 +69,29 @@ CHECKS = {
             'deterministic simulation: on-path cleartext edit fault '
             'injection + configuration search, reference negotiation model',
             'DESIGN.md 4 C03'),
+    'C04': ('c04_host_trust',
+            'A real asyncssh client connects by name/alias/address and port '
+            'to a real server (or to RefPeer lying about its key / presenting '
+            'an altered certificate) with a known_hosts text rendered from a '
+            'structured entry list (plain, hashed, wildcard, negated, CIDR, '
+            '[host]:port, @cert-authority, @revoked, several matching lines '
+            'in drawn order); credentials: listed/other/revoked key, host '
+            'certificate by trusted/untrusted/revoked CA, user type, wrong or '
+            'no principals, validity window against the simulated wall clock '
+            'which may step during the handshake. A reference trust model '
+            'over the structured entries decides accept/reject; connect() '
+            'must agree, reject with HostKeyNotVerifiable/KeyExchangeFailed, '
+            'and the server must see no NEWKEYS/SERVICE_REQUEST/'
+            'USERAUTH_REQUEST from a rejecting client.',
+            COMMON_NOTE + ' Constructs whose meaning is undocumented (address '
+            'literals in pattern lists with a non-default port, bracketed '
+            'wildcards, port-form revocation + bare-name trust) are not '
+            'generated; outcomes that legitimately depend on when the clock '
+            'step lands, or on whether a plain or certificate algorithm is '
+            'negotiated, are counted as undecided rather than judged.',
+            'deterministic simulation: configuration + credential search with '
+            'simulated wall clock steps, reference trust model',
+            'DESIGN.md 4 C04'),
     'C05': ('c05_auth',
             'Seeded exploration of USERAUTH message histories sent by an '
             'independent hostile client (RefPeer, holding the session keys) '
